@@ -480,8 +480,10 @@ namespace occa {
       case primitiveType::uint32_ : return primitive(a.to<uint32_t>() == b.to<uint32_t>());
       case primitiveType::int64_  : return primitive(a.to<int64_t>()  == b.to<int64_t>());
       case primitiveType::uint64_ : return primitive(a.to<uint64_t>() == b.to<uint64_t>());
-      case primitiveType::float_  : return primitive(areBitwiseEqual(a.value.float_, b.value.float_));
-      case primitiveType::double_ : return primitive(areBitwiseEqual(a.value.double_, b.value.double_));
+      // Compare values, not object representations: both operands are converted to the common type,
+      // -0.0 == 0.0 and NaN != NaN ((x <= y) && (x >= y) is x == y without tripping -Wfloat-equal)
+      case primitiveType::float_  : return primitive((a.to<float>()  <= b.to<float>())  && (a.to<float>()  >= b.to<float>()));
+      case primitiveType::double_ : return primitive((a.to<double>() <= b.to<double>()) && (a.to<double>() >= b.to<double>()));
       default: ;
     }
     return primitive();
@@ -506,8 +508,9 @@ namespace occa {
       case primitiveType::uint32_ : return primitive(a.to<uint32_t>() != b.to<uint32_t>());
       case primitiveType::int64_  : return primitive(a.to<int64_t>()  != b.to<int64_t>());
       case primitiveType::uint64_ : return primitive(a.to<uint64_t>() != b.to<uint64_t>());
-      case primitiveType::float_  : return primitive(!areBitwiseEqual(a.value.float_, b.value.float_));
-      case primitiveType::double_ : return primitive(!areBitwiseEqual(a.value.double_, b.value.double_));
+      // See equal()
+      case primitiveType::float_  : return primitive(!((a.to<float>()  <= b.to<float>())  && (a.to<float>()  >= b.to<float>())));
+      case primitiveType::double_ : return primitive(!((a.to<double>() <= b.to<double>()) && (a.to<double>() >= b.to<double>())));
       default: ;
     }
     return primitive();
